@@ -1673,8 +1673,13 @@ def jit(
       )
       mutable = tuple(_hashable_filter(scope.mutable) for scope in scopes)
 
+      # the static suffix (the path of the scope) must not enter the jit cache
+      # key, but dropping it makes scopes at different paths draw the same
+      # keys: fold it into the key data instead.
       rng_groups = jax.tree.map(
-          lambda x: x.clear_suffix() if isinstance(x, LazyRng) else x,
+          lambda x: LazyRng.create(x.as_jax_rng())
+          if isinstance(x, LazyRng)
+          else x,
           rng_groups,
           is_leaf=lambda x: isinstance(x, LazyRng),
       )
@@ -1809,8 +1814,12 @@ def fold_rngs(
       )
       mutable = tuple(_hashable_filter(scope.mutable) for scope in scopes)
 
+      # same rng handling as in jit: fold the static suffix (the path of the
+      # scope) into the key data rather than dropping it.
       rng_groups = jax.tree.map(
-          lambda x: x.clear_suffix() if isinstance(x, LazyRng) else x,
+          lambda x: LazyRng.create(x.as_jax_rng())
+          if isinstance(x, LazyRng)
+          else x,
           rng_groups,
           is_leaf=lambda x: isinstance(x, LazyRng),
       )
